@@ -145,7 +145,8 @@ static void ev_vi(enc_t *x){
 static void cmd(char **tok,int nt){
   const char *c=tok[0]; if(nt<2) return; int e=atoi(tok[1]); if(e<0||e>=NE) return; enc_t *x=&E[e];
   /* the caller honours the documented contract: no analysis calls without a successful set-up and analysis_init */
-  if((!strcmp(c,"eainit")&&!(x->s_vi==1&&x->stone)) ||
+  if((!strcmp(c,"einit")&&x->s_vi==1) ||      /* vorbis_info_init on a live struct would orphan it: not a legal use */
+     (!strcmp(c,"eainit")&&(!(x->s_vi==1&&x->stone)||x->s_vd==1)) ||
      ((!strcmp(c,"ehdr")||!strcmp(c,"ewrite")||!strcmp(c,"eeof")||!strcmp(c,"brunit")||!strcmp(c,"ab"))&&!x->ready) ||
      ((!strcmp(c,"esetup")||!strcmp(c,"ectl")||!strcmp(c,"evbr")||!strcmp(c,"eman")||!strcmp(c,"eivbr")||!strcmp(c,"eiman"))&&x->s_vi!=1)){
     ev_begin("Skip"); ev_i("x",e); ev_s("cmd",c); ev_end(); return; }
